@@ -789,8 +789,9 @@ def export_dxf(path, only_layers=None):
     # add in the extents of the document as explicit XYZ lines
     hsub = {f"EXTMIN_{k}": v for k, v in zip("XYZ", np.append(path.bounds[0], 0.0))}
     hsub.update({f"EXTMAX_{k}": v for k, v in zip("XYZ", np.append(path.bounds[1], 0.0))})
-    # apply a units flag defaulting to `1`
-    hsub["LUNITS"] = _UNITS_TO_DXF.get(path.units, 1)
+    # apply a units flag defaulting to `1`: `load_dxf` reads
+    # the value of `$LUNITS` as the `$INSUNITS` code plus one
+    hsub["LUNITS"] = _UNITS_TO_DXF.get(path.units, 0) + 1
     # run the format for the header
     sections = [template["header"].format(**hsub).strip()]
     # do the same for entities
